@@ -3,6 +3,7 @@ import ConfModel.Model.Convert
 import ConfModel.Model.Base64
 import ConfModel.Spec.Convert
 import ConfModel.Model.ProtoWire
+import ConfModel.Spec.GetQuery
 namespace ConfModel.Driver.C18
 open Lean ConfModel.Driver ConfModel.Convert ConfModel.ConvertSpec
 
@@ -376,6 +377,44 @@ def handle : Handler := fun op inp impl =>
       cls := (if bool (field inp "json") then "json" else "proto") ++ (if b64p then "+base64" else ""),
       why := if holds then "" else
         s!"the request message of a Connect GET ({hex sent}) sent by the reference client's raw request sender does not reach the reference server's handler unchanged: status {nat (field impl "status")}, message parameter received {hex param}, decoded request data {str (field impl "data")}" }
+  | "getwire" =>
+    let fail := str (field impl "fail")
+    if fail != "" then { agree := false, holds := false, why := "GET message parameter: " ++ fail } else
+    let msg := unhex (str (field inp "msg"))
+    let b64p := bool (field inp "b64")
+    let wire := unhex (str (field impl "wire"))
+    let status := nat (field impl "status")
+    let got : Option (List UInt8) := if status == 200 then some (unhex (str (field impl "got"))) else none
+    let one := nat (field impl "found") == 1
+    let mWire := ConfModel.GetQuery.getWire b64p msg
+    let mGot := ConfModel.GetQuery.getRead b64p mWire
+    let holds := one && str (field impl "method") == "GET" && ConfModel.GetQuerySpec.getHolds b64p msg wire got
+    { agree := wire == mWire && got == mGot && one, holds := holds,
+      nontrivial := msg.any ConfModel.GetQuery.querySensitive || (b64p && !msg.isEmpty),
+      model := hex mWire, cls := (if b64p then "base64" else "plain") ++ ":" ++ toString (msg.length % 3),
+      why := if holds then "" else
+        s!"the message of a Connect GET ({hex msg}, base64={b64p}) as the reference client's raw request sender writes it into the URI (message={String.mk (wire.map (fun b => Char.ofNat b.toNat))}, {nat (field impl "found")} such pair(s), query {str (field impl "query")}) is not carried without loss: reads back per specification = {ConfModel.GetQuerySpec.wireReads b64p msg wire}, stays in its pair = {ConfModel.GetQuerySpec.wireClosed wire}, status {status}, the handler received {str (field impl "got")}" }
+  | "getdec" =>
+    let p := unhex (str (field inp "param"))
+    let b64p := bool (field inp "b64")
+    let status := nat (field impl "status")
+    let got : Option (List UInt8) := if status == 200 then some (unhex (str (field impl "got"))) else none
+    let m := ConfModel.GetQuery.readParam b64p p
+    -- claimed only for values that are an encoding in use of some bytes x: then the handler must receive x
+    let claim : Option (List UInt8) :=
+      if b64p then
+        match ConfModel.Base64.decodeURLPadded p with
+        | some x => if ConfModel.GetQuerySpec.encodes true p x then some x else none
+        | none => none
+      else some p
+    let holds := match claim with
+      | some x => got == some x
+      | none => true
+    { agree := got == m, holds := holds, nontrivial := claim.isSome && !p.isEmpty,
+      model := match m with | some x => hex x | none => "refused",
+      cls := if claim.isSome then "encoding" else "other",
+      why := if holds then "" else
+        s!"connect-go's reading of the GET message parameter {hex p} (base64={b64p}), a URL-safe base64 encoding of {match claim with | some x => hex x | none => ""}: status {status}, the handler received {str (field impl "got")}" }
   | "codecbad" =>
     let codec := str (field inp "codec")
     let kind := str (field inp "kind")
